@@ -198,7 +198,7 @@ E1_ASSUME = [
     "states = executions (each a distinct complete schedule of the implementation), transitions = scheduling points executed",
 ]
 
-MC_ALL = "D1,D1f,D2,D2b,D3,D4,D4b,D5,D6,D7,D8,D9,D10,D11,D14"
+MC_ALL = "D1,D1f,D2,D2b,D3,D4,D4b,D5,D6,D7,D8,D9,D10,D11,D14,D15"
 
 PROPS["C08"] = dict(
     level="model_checking",
@@ -229,8 +229,10 @@ PROPS["C10"] = dict(
     assumptions=E1_ASSUME + ["TSan keeps a bounded per-location access history: a race whose two accesses are separated by very many accesses to the same cell can be missed within one execution", "the harness' own bookkeeping (scheduler, VFS) is excluded from race detection by construction (uninstrumented TUs + ignore scopes)"],
     stages=[dict(name="mc-tsan", driver="mc", flavour="tsan", args=["--prop", "C10"],
                  quick=["--scenarios", MC_ALL, "--bound", "1"], thorough=["--scenarios", MC_ALL, "--bound", "2"]),
+            dict(name="mc-tsan2", driver="mc", flavour="tsan", args=["--prop", "C10"], tiers=["quick"],
+                 quick=["--scenarios", "D15,D3,D10,D11,D8", "--bound", "2"]),
             dict(name="mc-asan", driver="mc", flavour="asan", args=["--prop", "C10"],
-                 quick=["--scenarios", "D3,D8,D11", "--bound", "2"], thorough=["--scenarios", MC_ALL, "--bound", "2", "--io", "1"])],
+                 quick=["--scenarios", "D3,D8,D11,D15", "--bound", "2"], thorough=["--scenarios", MC_ALL, "--bound", "2", "--io", "1"])],
 )
 PROPS["C04"] = dict(
     level="model_checking",
@@ -244,12 +246,12 @@ PROPS["C04"] = dict(
 PROPS["C12"] = dict(
     level="fault_enumeration",
     technique="fault-site enumeration: every intercepted system call of a recorded run x every errno the property names x {one-shot, persistent} x short transfers, re-run on the real code; then close+reopen and kill+reopen after the fault cleared",
-    rule="histories up to the given length over {put, put-sync, put-1KiB, batch, flush, compact-all, reopen} + 4 scripted ones (log rotation, multi-level compaction, recovery in the middle) x every call index of kinds open/write/fsync/rename/unlink/close/mkdir/link/read/lseek/mmap x {ENOSPC, EIO, EMFILE, ENOENT, ENOMEM as meaningful} x paranoid {0,1}; distinct = distinct (op statuses, reopen status, recovered contents) outcomes",
+    rule="histories up to the given length over {put, put-sync, put-1KiB, batch, flush, compact-all, reopen; thorough: a 70 KB put whose log record spans three blocks} + 5 scripted ones (log rotation, multi-level compaction, recovery in the middle, fragmented log records) x every call index of kinds open/write/fsync/rename/unlink/close/mkdir/link/read/lseek/mmap x {ENOSPC, EIO, EMFILE, ENOENT, ENOMEM as meaningful} x paranoid {0,1}; distinct = distinct (op statuses, reopen status, recovered contents) outcomes",
     distinct_key="outcomes",
     assumptions=["fault model: the k-th intercepted call fails with the errno (one-shot) or it and every later call of the same kind fail (persistent); a short write/read transfers 0/1/len-1 bytes and the next call of that kind fails", "metadata probes (access, stat, fstat, fcntl, opendir) are not fault sites: C12 does not list them"] + E3_ASSUME[2:],
     stages=[dict(name="fault", driver="fault", flavour="asan",
                  quick=["--cfgs", "B1;B1,reuse=1", "--len", "2", "--scripted", "1"],
-                 thorough=["--cfgs", "B1;B1,reuse=1;B1,snappy=1,mmap=0", "--len", "3", "--scripted", "1", "--persistent", "1"]),
+                 thorough=["--cfgs", "B1;B1,reuse=1;B1,snappy=1,mmap=0", "--len", "3", "--scripted", "1", "--persistent", "1", "--wide", "1"]),
             dict(name="fault2", driver="fault", flavour="asan", tiers=["thorough"],
                  thorough=["--cfgs", "B1", "--len", "1", "--scripted", "0", "--depth2", "1"])],
 )
